@@ -22,6 +22,35 @@ enum RefV {
     Accept(usize),
     Incomplete,
     Reject,
+    /// ill-formed, and accepting it as a datum is a violation (a number prefix followed by something that is
+    /// certainly not a number)
+    RejectStrict,
+}
+
+thread_local! {
+    /// set by `ref_datum` when the text holds a number prefix followed by a spelling whose being a number is
+    /// not this property's subject (C16 owns number syntax): the reader may accept or refuse it
+    static DOUBT: std::cell::Cell<bool> = const { std::cell::Cell::new(false) };
+}
+
+/// Some(true): certainly a number at that radix (sign, digits, optionally / and a non-zero denominator);
+/// Some(false): certainly not (no digit of the radix and no dot anywhere); None: not decided here.
+fn spells_number(s: &str, radix: u32) -> Option<bool> {
+    if !s.chars().any(|c| c.is_digit(radix)) {
+        // what the number parser makes of sign-and-dot spellings is number syntax (C16), not reader discipline
+        return if s.contains('.') { None } else { Some(false) };
+    }
+    let body = s.strip_prefix(['+', '-']).unwrap_or(s);
+    let all_digits = |t: &str| !t.is_empty() && t.chars().all(|c| c.is_digit(radix));
+    if all_digits(body) {
+        return Some(true);
+    }
+    if let Some((n, d)) = body.split_once('/') {
+        if all_digits(n) && all_digits(d) && d.chars().any(|c| c != '0') {
+            return Some(true);
+        }
+    }
+    None
 }
 
 fn open_char(text: &str, t: &Token) -> char {
@@ -43,8 +72,15 @@ fn ref_datum(text: &str, toks: &[Token], pos: usize) -> RefV {
         | TokenType::Number => RefV::Accept(pos + 1),
         TokenType::NumberPrefix => {
             let mut p = pos;
+            let mut radix = 10;
             while let Some(t) = toks.get(p) {
                 if t.token_type == TokenType::NumberPrefix {
+                    match text[t.span.0..t.span.1].to_ascii_lowercase().as_str() {
+                        "#b" => radix = 2,
+                        "#o" => radix = 8,
+                        "#x" => radix = 16,
+                        _ => {}
+                    }
                     p += 1;
                 } else {
                     break;
@@ -52,8 +88,19 @@ fn ref_datum(text: &str, toks: &[Token], pos: usize) -> RefV {
             }
             match toks.get(p) {
                 None => RefV::Incomplete,
-                Some(t) if matches!(t.token_type, TokenType::Number | TokenType::Symbol) => RefV::Accept(p + 1),
-                Some(_) => RefV::Reject,
+                Some(t) if matches!(t.token_type, TokenType::Number | TokenType::Symbol) => {
+                    match spells_number(&text[t.span.0..t.span.1], radix) {
+                        Some(true) => RefV::Accept(p + 1),
+                        Some(false) => RefV::RejectStrict,
+                        None => {
+                            DOUBT.with(|d| d.set(true));
+                            RefV::Accept(p + 1)
+                        }
+                    }
+                }
+                // what the number parser makes of a lone dot is number syntax, not reader discipline
+                Some(t) if t.token_type == TokenType::Dot => RefV::Reject,
+                Some(_) => RefV::RejectStrict,
             }
         }
         TokenType::SingleQuote | TokenType::Quasiquote | TokenType::Unquote => ref_datum(text, toks, pos + 1),
@@ -225,7 +272,9 @@ fn check_text(acc: &mut Acc, text: &str, canonical: bool) {
             viol(acc, text, "parse", "no-progress", "datum loop did not advance".into());
             return;
         }
+        DOUBT.with(|d| d.set(false));
         let expected = ref_datum(text, &toks, pos);
+        let doubt = DOUBT.with(|d| d.get());
         let mut cur = toks[pos..].iter().peekable();
         let r = std::panic::catch_unwind(std::panic::AssertUnwindSafe(|| {
             let r = parse::parse(text, &mut cur);
@@ -252,7 +301,7 @@ fn check_text(acc: &mut Acc, text: &str, canonical: bool) {
             }
             (RefV::Accept(next), Err(e)) => {
                 let lenient = matches!(e, parse::Error::UnknownChar(_) | parse::Error::SyntaxError(_))
-                    && has_char_or_string(&toks, pos, next);
+                    && (doubt || has_char_or_string(&toks, pos, next));
                 if !lenient {
                     let obs = if e == parse::Error::Incomplete { "incomplete-for-complete-datum" } else { "error-for-valid-datum" };
                     viol(acc, text, "parse", obs, format!("datum at token {} is well-formed (reference) but parse returned {:?}", pos, e));
@@ -269,7 +318,7 @@ fn check_text(acc: &mut Acc, text: &str, canonical: bool) {
             (RefV::Incomplete, Err(e)) => {
                 // an invalid char/string atom inside may legitimately win
                 let lenient = matches!(e, parse::Error::UnknownChar(_) | parse::Error::SyntaxError(_))
-                    && has_char_or_string(&toks, pos, toks.len());
+                    && (doubt || has_char_or_string(&toks, pos, toks.len()));
                 if !lenient {
                     viol(acc, text, "parse", "error-for-incomplete", format!("datum at token {} is incomplete (reference) but parse returned {:?}", pos, e));
                     return;
@@ -281,7 +330,11 @@ fn check_text(acc: &mut Acc, text: &str, canonical: bool) {
                 viol(acc, text, "parse", "value-for-incomplete", format!("datum at token {} is incomplete (reference) but parse returned {:#}", pos, c));
                 return;
             }
-            (RefV::Reject, Err(e)) => {
+            (RefV::RejectStrict, Ok(c)) => {
+                viol(acc, text, "parse", "value-for-non-number-after-prefix", format!("a number prefix at token {} is followed by something that is not a number, but parse returned {:#}", pos, c));
+                return;
+            }
+            (RefV::Reject | RefV::RejectStrict, Err(e)) => {
                 final_err = Some(format!("{:?}", e));
                 break;
             }
